@@ -56,16 +56,22 @@ def refs_spec(cls, site, up):
     return [f"procedure({r}), pointer :: pp_{s}"]
 
 
-def render(cls, decl, use_at, up, via3=False, renaway=False):
+def render(cls, decl, use_at, up, via3=False, renaway=False, twouse=False):
     n = NAME[cls]
-    use = lambda site: ([f"use m2, zz_alias => {n}"] if renaway else ["use m2"]) if use_at == site else []
+    # twouse: a plain USE followed by a second USE statement of the same module that adds a local name for the entity
+    use = lambda site: ([f"use m2, zz_alias => {n}"] if renaway else ["use m2", f"use m2, only: zz_alias => {n}"] if twouse else ["use m2"]) if use_at == site else []
     procdecl = lambda site: ([f"subroutine {n}()", f"  integer :: in_{site.lower()}", f"end subroutine {n}"]
                              if cls == "proc" and site in decl else [])
     call = [f"call {_ref(cls, up)}()"] if cls == "proc" else []
     ind = lambda ls, k=1: ["  " * k + x for x in ls]
 
+    def alias_refs(site):
+        if not (twouse and use_at == site):
+            return []
+        return [f"type(zz_alias) :: va_{site.lower()}"] if cls == "type" else [f"procedure(zz_alias), pointer :: pa_{site.lower()}"]
+
     def unit_body(site):
-        return use(site) + ["implicit none"] + (decl_spec(cls, site) if site in decl else []) + refs_spec(cls, site, up)
+        return use(site) + ["implicit none"] + (decl_spec(cls, site) if site in decl else []) + refs_spec(cls, site, up) + alias_refs(site)
 
     m1 = ["module m1"] + ind(unit_body("M1"))
     m1_sees = "M1" in decl or (use_at == "M1" and "M2" in decl and not renaway)
@@ -108,7 +114,7 @@ def ident(obj):
     return pn.upper() if pn.upper() in SITES else pn
 
 
-def observe(cls, files, order):
+def observe(cls, files, order, alias_site=None):
     p = fordrun.project(files, order=order)
     mods = {m.name.lower(): m for m in p.modules}
     if "m1" not in mods:
@@ -134,6 +140,9 @@ def observe(cls, files, order):
         else:
             v = vars_.get(f"pp_{s}")
             obs[f"{site}:procptr"] = ident(v.proto[0]) if v is not None and v.proto else "missing"
+        if alias_site == site:
+            v = vars_.get(f"va_{s}" if cls == "type" else f"pa_{s}")
+            obs[f"{site}:alias"] = ident(v.proto[0]) if v is not None and v.proto else "missing"
         if cls == "proc" and site != "M1":
             cs = [c for c in sc.calls if (c if isinstance(c, str) else c.name).lower() == NAME[cls]]
             obs[f"{site}:call"] = ident(cs[0]) if cs else "missing"
@@ -192,20 +201,24 @@ def evaluate(case):
     if "M2" in case["decl"] and case["useAt"] != "none":
         variants.append((False, True))
         variants.append((False, "stub"))        # m2 is called like a module FORD also knows as external (mpi_f08)
+        if cls in ("type", "absint"):
+            variants.append((False, "twouse"))      # `use m2` and then `use m2, only: zz_alias => name`: both names denote m2's entity
         if case.get("ref_nouse"):
             variants.append((False, "renaway"))   # `use m2, zz_alias => name`: the name itself is not made accessible by this USE
     for up, via3 in variants:
-        files = render(cls, set(case["decl"]), case["useAt"], up, via3 is True, renaway=(via3 == "renaway"))
+        files = render(cls, set(case["decl"]), case["useAt"], up, via3 is True, renaway=(via3 == "renaway"), twouse=(via3 == "twouse"))
         if via3 == "stub":
             files = {k: re.sub(r"\bm2\b", STUB, v) for k, v in files.items()}
         names = sorted(files)
         orders = [list(p) for p in itertools.permutations(names)] if case["tier"] == "thorough" else [names, names[::-1]]
         for order in orders:
             try:
-                obs = observe(cls, files, order)
+                obs = observe(cls, files, order, alias_site=case["useAt"] if via3 == "twouse" else None)
             except Exception as ex:
                 obs = {"_error": f"{type(ex).__name__}: {ex}"}
             exp = expected(cls, case["ref_nouse"] if via3 == "renaway" else case["ref"])
+            if via3 == "twouse":
+                exp[f"{case['useAt']}:alias"] = "M2"
             bad = [(k, v, obs.get(k)) for k, v in exp.items() if obs.get(k) != v] if "_error" not in obs else [("_error", "", obs["_error"])]
             explained = False
             if bad and "_error" not in obs:
@@ -290,9 +303,11 @@ def run(tier, seed, ck: Check):
 def replay_file(path, ck):
     rec = json.load(open(path))
     c = rec["case"]
-    files = rec.get("files") or render(c["cls"], set(c["decl"]), c["useAt"], c["up"], c.get("via3", False) is True, renaway=(c.get("via3") == "renaway"))
-    obs = observe(c["cls"], files, c["order"])
+    files = rec.get("files") or render(c["cls"], set(c["decl"]), c["useAt"], c["up"], c.get("via3", False) is True, renaway=(c.get("via3") == "renaway"), twouse=(c.get("via3") == "twouse"))
+    obs = observe(c["cls"], files, c["order"], alias_site=c["useAt"] if c.get("via3") == "twouse" else None)
     exp = rec["expected"]
+    if c.get("via3") == "twouse":
+        exp = dict(exp, **{f"{c['useAt']}:alias": "M2"})
     bad = [(k, v, obs.get(k)) for k, v in exp.items() if obs.get(k) != v]
     ck.count(); ck.nontrivial_case("r1"); ck.nontrivial_case("r2")
     ck.sample({"files": files, "observed": obs})
